@@ -11,6 +11,56 @@ fn close(a: &[f64], b: &[f64], tol: f64) -> bool {
     a.len() == b.len() && a.iter().zip(b).all(|(x, y)| (x - y).abs() <= tol * (1.0 + x.abs().max(y.abs())))
 }
 
+/// what C06 says about a `Solution` with dense output: every stored sample is reproduced, `sol` succeeds on a grid over
+/// the reported range and at both of its ends, the covered span contains the reported range, clearly-outside is an error
+fn dense_invariants(sol: &Solution) -> Option<String> {
+    let mut bad: Option<String> = None;
+    for (t, y) in sol.iter() {
+        match sol.sol(t) {
+            Ok(v) => {
+                if !close(&v, y, 1e-9) {
+                    return Some(format!("sol({}) = {:?} but stored sample {:?}", t, v, y));
+                }
+            }
+            Err(e) => return Some(format!("sol({}) at a stored sample failed: {:?}", t, e)),
+        }
+    }
+    if sol.t.len() >= 2 {
+        let (a, b) = (sol.t[0], *sol.t.last().unwrap());
+        for j in 0..=40 {
+            let t = if j == 40 { b } else { a + (b - a) * (j as f64) / 40.0 };
+            if sol.sol(t).is_err() {
+                return Some(format!("sol({}) failed inside the covered span [{}, {}]", t, a, b));
+            }
+        }
+        // "clearly outside" is relative to the covered span, which must contain x0 and the last reported time
+        let (s0, s1) = sol.sol_span().unwrap_or((f64::NAN, f64::NAN));
+        let (lo, hi) = (s0.min(s1), s0.max(s1));
+        if !(lo <= a.min(b) + 1e-12 && a.max(b) <= hi + 1e-12) {
+            bad = Some(format!("covered span [{}, {}] does not contain the reported range [{}, {}]", s0, s1, a, b));
+        }
+        let far = (hi - lo).abs() + 1.0;
+        for t in [lo - far, hi + far] {
+            match sol.sol(t) {
+                Err(Error::Interpolation(InterpolationError::OutOfRange { .. })) => {}
+                other => {
+                    bad = Some(format!("sol({}) clearly outside [{}, {}] returned {:?}", t, a, b, other.map(|v| v.len())));
+                }
+            }
+        }
+        match std::panic::catch_unwind(std::panic::AssertUnwindSafe(|| sol.sol_many(&[a, 0.5 * (a + b), b]))) {
+            Ok(Ok(v)) => {
+                if !close(&v[1], &sol.sol(0.5 * (a + b)).unwrap(), 0.0) {
+                    bad = Some("sol_many differs from sol".into());
+                }
+            }
+            Ok(Err(_)) => bad = Some("sol_many failed on covered points".into()),
+            Err(_) => bad = Some("sol_many panicked on covered points".into()),
+        }
+    }
+    bad
+}
+
 pub fn run(args: &[String]) {
     let seed: u64 = args.get(0).and_then(|s| s.parse().ok()).unwrap_or(1);
     let cases: usize = args.get(1).and_then(|s| s.parse().ok()).unwrap_or(60);
@@ -74,54 +124,7 @@ pub fn run(args: &[String]) {
         if bad.is_none() {
             let opts = Options::builder().method(method).rtol(rtol).atol(atol).dense_output(true).build();
             match solve_ivp(&p, x0, xend, &y0, opts) {
-                Ok(sol) => {
-                    for (t, y) in sol.iter() {
-                        match sol.sol(t) {
-                            Ok(v) => {
-                                if !close(&v, y, 1e-9) {
-                                    bad = Some(format!("sol({}) = {:?} but stored sample {:?}", t, v, y));
-                                    break;
-                                }
-                            }
-                            Err(e) => {
-                                bad = Some(format!("sol({}) at a stored sample failed: {:?}", t, e));
-                                break;
-                            }
-                        }
-                    }
-                    if bad.is_none() && sol.t.len() >= 2 {
-                        let (a, b) = (sol.t[0], *sol.t.last().unwrap());
-                        for j in 0..=40 {
-                            let t = if j == 40 { b } else { a + (b - a) * (j as f64) / 40.0 };
-                            if sol.sol(t).is_err() {
-                                bad = Some(format!("sol({}) failed inside the covered span [{}, {}]", t, a, b));
-                                break;
-                            }
-                        }
-                        // "clearly outside" is relative to the covered span, which must contain x0 and the last reported time
-                        let (s0, s1) = sol.sol_span().unwrap_or((f64::NAN, f64::NAN));
-                        let (lo, hi) = (s0.min(s1), s0.max(s1));
-                        if !(lo <= a.min(b) + 1e-12 && a.max(b) <= hi + 1e-12) {
-                            bad = Some(format!("covered span [{}, {}] does not contain the reported range [{}, {}]", s0, s1, a, b));
-                        }
-                        let far = (hi - lo).abs() + 1.0;
-                        for t in [lo - far, hi + far] {
-                            match sol.sol(t) {
-                                Err(Error::Interpolation(InterpolationError::OutOfRange { .. })) => {}
-                                other => {
-                                    bad = Some(format!("sol({}) clearly outside [{}, {}] returned {:?}", t, a, b, other.map(|v| v.len())));
-                                }
-                            }
-                        }
-                        if let Ok(v) = sol.sol_many(&[a, 0.5 * (a + b), b]) {
-                            if !close(&v[1], &sol.sol(0.5 * (a + b)).unwrap(), 0.0) {
-                                bad = Some("sol_many differs from sol".into());
-                            }
-                        } else {
-                            bad = Some("sol_many failed on covered points".into());
-                        }
-                    }
-                }
+                Ok(sol) => { bad = dense_invariants(&sol); }
                 Err(e) => bad = Some(format!("solve_ivp error {:?}", e)),
             }
             let opts = Options::builder().method(method).rtol(rtol).atol(atol).build();
@@ -139,6 +142,43 @@ pub fn run(args: &[String]) {
             "{{\"kind\":\"dense\",\"case\":{},\"problem\":\"{}\",\"method\":\"{}\",\"x0\":{},\"xend\":{},\"rtol\":{},\"atol\":{},\"status\":\"{}\",\"steps\":{},\"ok\":{},\"why\":{:?}}}",
             case, if with_terminal { format!("{:?}+terminal@{}", kind, tc) } else { format!("{:?}", kind) }, method_name(method), x0, jnum(xend), jnum(rtol), jnum(atol), status, rec.cbs.len().saturating_sub(1), bad.is_none(), bad.unwrap_or_default()
         );
+    }
+    // directed: runs whose step grid contains a step of rounding size (a landing step of one ulp after max_step-limited
+    // steps; a tiny first_step): the dense output must still cover [x0, last reported time]
+    {
+        std::panic::set_hook(Box::new(|_| {}));
+        let mut k = 0;
+        for method in ALL_METHODS {
+            for (x0, xend) in [(0.0f64, 1.0f64), (1.0, 0.0), (0.0, 0.7), (-0.3, 0.0)] {
+                for (ms, fs) in [(Some(0.1f64), None::<f64>), (Some(0.1 * (xend - x0).abs()), None), (Some(0.1), Some(0.1)), (Some(0.1 * (xend - x0).abs()), Some(0.1 * (xend - x0).abs())), (None, Some(1e-13)), (None, Some(3e-13))] {
+                    if method == Method::RK4 { continue; } // fixed step: neither option applies
+                    let p = Prob::new(Kind::Slow);
+                    let y0 = p.y0();
+                    let opts = match (ms, fs) {
+                        (Some(m), Some(f)) => Options::builder().method(method).rtol(1e-3).atol(1e-6).max_step(m).first_step(f).dense_output(true).build(),
+                        (Some(m), _) => Options::builder().method(method).rtol(1e-3).atol(1e-6).max_step(m).dense_output(true).build(),
+                        (_, Some(f)) => Options::builder().method(method).rtol(1e-3).atol(1e-6).first_step(f).dense_output(true).build(),
+                        _ => unreachable!(),
+                    };
+                    let r = std::panic::catch_unwind(std::panic::AssertUnwindSafe(|| solve_ivp(&p, x0, xend, &y0, opts)));
+                    let (status, bad) = match r {
+                        Ok(Ok(sol)) => {
+                            let mut bad = dense_invariants(&sol);
+                            if bad.is_none() && sol.sol(x0).is_err() { bad = Some(format!("sol(x0 = {}) failed: covered span {:?}", x0, sol.sol_span())); }
+                            (format!("{:?}", sol.status), bad)
+                        }
+                        Ok(Err(e)) => (format!("Err({:?})", e), None),
+                        Err(_) => ("panic".to_string(), Some("solve_ivp panicked".to_string())),
+                    };
+                    if bad.is_some() { n_fail += 1; }
+                    println!(
+                        "{{\"kind\":\"dense\",\"case\":\"tiny-step-{}\",\"problem\":\"Slow\",\"method\":\"{}\",\"x0\":{},\"xend\":{},\"max_step\":{},\"first_step\":{},\"status\":\"{}\",\"finding_key\":\"c06-cover\",\"ok\":{},\"why\":{:?}}}",
+                        k, method_name(method), x0, xend, ms.map(jnum).unwrap_or("null".into()), fs.map(jnum).unwrap_or("null".into()), status, bad.is_none(), bad.unwrap_or_default()
+                    );
+                    k += 1;
+                }
+            }
+        }
     }
     // zero-length run
     {
